@@ -59,8 +59,49 @@ pub fn exec(func: &str, a: &mut Args) -> String {
         "polymesh" => { let n = a.u(); let pts: Vec<_> = (0..n).map(|_| d3::p(a)).collect();
             let m = a.u(); let tris: Vec<[u32; 3]> = (0..m).map(|_| [a.u() as u32, a.u() as u32, a.u() as u32]).collect();
             match crate::p3::shape::ConvexPolyhedron::from_convex_mesh(pts, &tris) { None => "none".into(), Some(p) => dump_poly(&p) } }
+        // utils::remove_unused_points (public; the last step of try_convex_hull) on an arbitrary index buffer
+        "remove_unused" => { let n = a.u(); let mut pts: Vec<_> = (0..n).map(|_| d3::p(a)).collect();
+            let m = a.u(); let mut tris: Vec<[u32; 3]> = (0..m).map(|_| [a.u() as u32, a.u() as u32, a.u() as u32]).collect();
+            crate::p3::utils::remove_unused_points(&mut pts, &mut tris[..]);
+            format!("{} {} {} {}", pts.len(), pts.iter().map(d3::fp).collect::<Vec<_>>().join(" "), tris.len(),
+                tris.iter().map(|t| format!("{} {} {}", t[0], t[1], t[2])).collect::<Vec<_>>().join(" ")).replace("  ", " ").trim().to_string() }
         _ => "nofn".into(),
     }
+}
+
+/// index buffers for `remove_unused`: which of the `n` points are referenced decides the path through the `swap_remove` loop
+/// (family 0 random subset, 1 only a prefix used (the tail is popped, `i == len` pops), 2 only a suffix used (every kept point
+/// is moved), 3 every other point, 4 all used, 5 one triangle, 6 empty buffer, 7 unused runs of random lengths, 8 repeated
+/// indices inside a triangle, 9 one index out of range (documented index panic; outside the domain))
+fn unused_case(r: &mut Rng, fam: u64) -> (Vec<P3>, Vec<[u32; 3]>) {
+    let nmax = if r.below(6) == 0 { 60 } else { 14 };
+    let n = 1 + r.below(nmax) as usize;
+    let lat = r.bool();
+    let mut pts: Vec<P3> = (0..n).map(|_| d3::gen_p(r, lat, 2.0)).collect();
+    if r.below(4) == 0 && n > 1 { let k = r.below(n as u64) as usize; pts[k] = pts[0]; }          // duplicated coordinates
+    let pool: Vec<u32> = match fam {
+        1 => (0..(1 + r.below(n as u64)) as u32).collect(),
+        2 => { let k = r.below(n as u64) as u32; (k..n as u32).collect() }
+        3 => (0..n as u32).filter(|i| i % 2 == (n as u32 % 2)).collect(),
+        4 | 8 | 9 => (0..n as u32).collect(),
+        7 => { let mut v = Vec::new(); let mut i = 0u32; let mut on = r.bool();
+               while (i as usize) < n { let len = 1 + r.below(4) as u32; if on { for k in i..(i + len).min(n as u32) { v.push(k); } } i += len; on = !on; } v }
+        _ => { let mut v = Vec::new(); for i in 0..n as u32 { if r.below(3) != 0 { v.push(i); } } v }
+    };
+    let mut tris: Vec<[u32; 3]> = Vec::new();
+    if fam != 6 && !pool.is_empty() {
+        if fam == 5 { tris.push([*r.pick(&pool), *r.pick(&pool), *r.pick(&pool)]); }
+        else {
+            // every pool index at least once (so that the used set is exactly the pool), then random extra triangles
+            let mut order = pool.clone(); shuffle(r, &mut order);
+            for c in order.chunks(3) { tris.push([c[0], c[c.len() / 2], c[c.len() - 1]]); }
+            for _ in 0..r.below(6) { tris.push([*r.pick(&pool), *r.pick(&pool), *r.pick(&pool)]); }
+            shuffle(r, &mut tris);
+        }
+    }
+    if fam == 8 { for t in tris.iter_mut() { if r.bool() { t[1] = t[0]; } } }
+    if fam == 9 && !tris.is_empty() { let k = r.below(tris.len() as u64) as usize; tris[k][r.below(3) as usize] = n as u32 + r.below(3) as u32; }
+    (pts, tris)
 }
 
 /// `P np pts… F nf {first num nx ny nz}… E ne {v0 v1 f0 f1 dx dy dz}… V nv {first num}… VF n ids… EF n ids… FV n ids…
@@ -404,5 +445,15 @@ pub fn gen(r: &mut Rng, thorough: bool) -> Vec<(String, String)> {
         if ms { v.push(("hull3".into(), fmt3(&cloud))); }
         v.push(("hull3m".into(), fmt3(&cloud)));
     }
+    // fu5: remove_unused_points on arbitrary index buffers (appended so that the stream above is unchanged)
+    let m5 = if thorough { 1500 } else { 300 };
+    let mut fam_count = [0usize; 10];
+    for it in 0..m5 {
+        let fam = if it % 25 == 24 { 9 } else { (it % 9) as u64 };
+        fam_count[fam as usize] += 1;
+        let (p, t) = unused_case(r, fam);
+        v.push(("remove_unused".into(), format!("{} {} {}", fmt3(&p), t.len(), t.iter().map(|t| format!("{} {} {}", t[0], t[1], t[2])).collect::<Vec<_>>().join(" ")).trim().to_string()));
+    }
+    if std::env::var("VERIF_DBG").is_ok() { eprintln!("C12 remove_unused families 0..9: {:?}", fam_count); }
     v
 }
